@@ -393,11 +393,6 @@ Qed.
 Section Make.
 Variable close : V -> V -> bool.
 
-Definition extra_names_of (extras : list arr2) (xnames : names) : list string :=
-  match extras with [] => [] | _ => names_list xnames end.
-Definition data_names_of (data : dataarg V) (dnames : names) : list string :=
-  match data with DNone => [] | _ => names_list dnames end.
-
 (** the grid that make_xarray_grid builds, explicitly *)
 Lemma make_structure ce cn extras data dnames dims xnames ds :
   make_xarray_grid close ce cn extras data dnames dims xnames = Some ds ->
@@ -804,4 +799,74 @@ Qed.
 
 End Round.
 
+(** ** The decidable exact-meshgrid test is the stated condition *)
+
+Lemma veqb_refl x : veqb x x = true.
+Proof. apply veqb_spec. reflexivity. Qed.
+
+Lemma all2_eq (l1 l2 : list V) : length l1 = length l2 -> all2 veqb l1 l2 = true -> l1 = l2.
+Proof.
+  unfold all2. revert l2. induction l1 as [|x l1 IH]; intros [|y l2] Hl H; cbn in *; try reflexivity; try discriminate.
+  apply andb_true_iff in H as [H1 H2]. apply veqb_spec in H1. subst y. f_equal. apply IH; [lia|exact H2].
+Qed.
+
+Theorem exact_meshgrid_b_spec nn ne (E N : arr2) :
+  rect nn ne E = true ->
+  (exact_meshgrid_b veqb E N = true <-> rows_equal_first E /\ cols_equal_first N).
+Proof.
+  intros RE. apply rect_spec in RE as [_ RE]. rewrite Forall_forall in RE.
+  unfold exact_meshgrid_b. rewrite andb_true_iff.
+  assert (A: rows_close veqb E = true <-> rows_equal_first E).
+  { unfold rows_close, rows_equal_first, first_row. destruct E as [|r0 t].
+    - split; [intros _ r []|reflexivity].
+    - cbn [hd]. rewrite forallb_forall. split; intros H r Hr.
+      + symmetry. apply all2_eq; [|apply H; exact Hr].
+        rewrite (RE r0 (or_introl eq_refl)), (RE r Hr). reflexivity.
+      + rewrite (H r Hr). apply all2_refl. exact veqb_refl. }
+  assert (B: cols_close veqb N = true <-> cols_equal_first N).
+  { unfold cols_close, cols_equal_first. rewrite forallb_forall. split; intros H.
+    - intros r x Hr Hx. specialize (H r Hr). destruct r as [|x0 r]; [destruct Hx|].
+      rewrite forallb_forall in H. specialize (H x Hx). apply veqb_spec in H. subst. reflexivity.
+    - intros r Hr. destruct r as [|x0 r]; [reflexivity|].
+      apply forallb_forall. intros x Hx. specialize (H _ x Hr Hx). cbn in H.
+      injection H as ->. apply veqb_refl. }
+  rewrite A, B. reflexivity.
+Qed.
+
 End Proofs.
+
+(** ** The instance used by the generated case files: exact dyadic doubles *)
+
+Lemma deqb_spec (a b : D) : deqb a b = true <-> a = b.
+Proof.
+  destruct a as [m1 e1], b as [m2 e2]. unfold deqb. cbn [fst snd].
+  rewrite andb_true_iff, !Z.eqb_eq. split; [intros [-> ->]; reflexivity|intros [= -> ->]; split; reflexivity].
+Qed.
+
+Open Scope Q_scope.
+
+Lemma np_atol_pos : 0 < D2Q np_atol.
+Proof.
+  unfold D2Q, np_atol. cbn [fst snd]. apply Qmult_lt_0_compat; [reflexivity|apply pow2_pos].
+Qed.
+
+Lemma np_rtol_pos : 0 < D2Q np_rtol.
+Proof.
+  unfold D2Q, np_rtol. cbn [fst snd]. apply Qmult_lt_0_compat; [reflexivity|apply pow2_pos].
+Qed.
+
+(** [dclose a b] is |a - b| <= atol + rtol * |b| over the rationals *)
+Lemma dclose_spec (a b : D) :
+  dclose a b = true <-> Qabs (D2Q a - D2Q b) <= D2Q np_atol + D2Q np_rtol * Qabs (D2Q b).
+Proof.
+  unfold dclose. rewrite dle_spec, D2Q_abs, D2Q_add, D2Q_mul, D2Q_abs.
+  rewrite (Qabs_wd _ _ (D2Q_sub a b)). reflexivity.
+Qed.
+
+Lemma dclose_refl (x : D) : dclose x x = true.
+Proof.
+  apply dclose_spec.
+  rewrite (Qabs_wd (D2Q x - D2Q x) 0) by ring. cbn [Qabs Z.abs Qnum Qden].
+  pose proof np_atol_pos. pose proof np_rtol_pos. pose proof (Qabs_nonneg (D2Q x)).
+  change (Qabs 0) with 0. nra.
+Qed.
